@@ -145,6 +145,19 @@ func (in *Interp) binop(op token.Token, a, b Value, at, bt types.Type) Value {
 						panic(in.runtimePanic("integer divide by zero"))
 					}
 				}
+				// (a*c)/c = a when the range facts exclude overflow of a*c
+				// (seconds -> time.Duration -> seconds round trips).
+				if op == token.QUO && y.IsConst() && x.Op == term.OMul && len(x.Args) == 2 && x.Args[1] == y {
+					a, c := x.Args[0], y.SignedVal()
+					ia := in.Eng.abs.iv(a)
+					if c > 0 && (signed || ia.lo >= 0) {
+						lo, o1 := mulOv(ia.lo, c)
+						hi, o2 := mulOv(ia.hi, c)
+						if !o1 && !o2 && fits(ival{lo, hi}, w) {
+							return a
+						}
+					}
+				}
 				if !(x.IsConst() && y.IsConst()) {
 					kx, ky := narrowBits(in.Eng.abs.iv(x)), narrowBits(in.Eng.abs.iv(y))
 					if kx >= 0 && ky >= 0 && kx <= 40 && ky <= 40 {
@@ -238,6 +251,14 @@ func (in *Interp) convert(v Value, from, to types.Type) Value {
 				return term.UBVToF(t, ts.W)
 			case fs.K == term.KFP && ts.K == term.KBV:
 				if isSigned(to) {
+					// int(float64(a)) = a when the range facts give |a| <= 2^53
+					// (every such integer is a float64; truncation leaves it alone)
+					if t.Op == term.OSBVToF && fs.W == 64 && len(t.Args) == 1 && t.Args[0].Sort.K == term.KBV && t.Args[0].Sort.W == ts.W {
+						ia := in.Eng.abs.iv(t.Args[0])
+						if ia.lo >= -(1<<53) && ia.hi <= 1<<53 {
+							return t.Args[0]
+						}
+					}
 					return term.FToSBV(t, ts.W)
 				}
 				return term.FToUBV(t, ts.W)
